@@ -48,6 +48,11 @@ def impl(op: str) -> str:
                 tx = BTC.tx_utils.create_tx(sp, payables, fee=fee)
             except ValueError as e:
                 return "err " + ("insufficient" if "insufficient" in str(e) else "notEnough")
+            paired = len(tx.txs_in) == len(sp) == len(tx.unspents) and all(
+                i.previous_hash == s.tx_hash and i.previous_index == s.tx_out_index and u.coin_value == s.coin_value and u.script == s.script
+                for i, s, u in zip(tx.txs_in, sp, tx.unspents))
+            if not paired:
+                return "ok %s fee=%d UNPAIRED" % (show_list(o.coin_value for o in tx.txs_out), tx.fee())
             return "ok %s fee=%d" % (show_list(o.coin_value for o in tx.txs_out), tx.fee())
         if k in ("sat2btc", "sat2mbtc"):
             d = (convention.satoshi_to_btc if k == "sat2btc" else convention.satoshi_to_mbtc)(int(a[1]))
@@ -58,6 +63,9 @@ def impl(op: str) -> str:
             c, e = int(a[1]), int(a[2])
             d = decimal.Decimal((1 if c < 0 else 0, tuple(int(x) for x in str(abs(c))), e))
             return "ok %d" % (convention.btc_to_satoshi if k == "btc2sat" else convention.mbtc_to_satoshi)(d)
+        if k in ("btc2sat_s", "mbtc2sat_s"):
+            t = unhx(a[1]).decode()
+            return "ok %d" % (convention.btc_to_satoshi if k == "btc2sat_s" else convention.mbtc_to_satoshi)(t)
         if k == "validate_unspents":
             return _validate(a[1], a[2], a[3])
     except Exception as e:  # noqa: BLE001
@@ -123,8 +131,10 @@ def oracle(op: str, out: str):
         if zc == 0:
             return None
         if out.startswith("ok"):
+            if out.endswith("UNPAIRED"):
+                return "an input is not paired with the spendable it came from"
             res = parse_ints(out.split(" ")[1])
-            got_fee = int(out.split("fee=")[1])
+            got_fee = int(out.split("fee=")[1].split(" ")[0])
             if rem < zc:
                 return "transaction produced although funds are insufficient"
             if sum(res) + fee != sum(ins):
@@ -144,6 +154,15 @@ def oracle(op: str, out: str):
         back = impl(("btc2sat" if k == "sat2btc" else "mbtc2sat") + " %s %s" % (c, e))
         if 0 <= n < 10 ** 20 and back != "ok %d" % n:
             return "satoshi -> decimal -> satoshi is not the identity"
+    if k in ("btc2sat_s", "mbtc2sat_s") and out.startswith("ok"):
+        unit = 8 if k == "btc2sat_s" else 5
+        txt = unhx(a[1]).decode()
+        neg = txt.startswith("-")
+        ip, _, fp = txt.lstrip("+-").partition(".")
+        if len(fp) <= unit:
+            want = int(ip or "0") * 10 ** unit + int((fp + "0" * unit)[:unit] or "0")
+            if out != "ok %d" % (-want if neg else want):
+                return "decimal string -> satoshi is not exact"
     if k == "validate_unspents" and out == "ok":
         # sound: a normal return means every recorded unspent equals the source
         ins = [] if a[1] == "~" else [(x.split(":")[0], int(x.split(":")[1])) for x in a[1].split(",")]
@@ -222,6 +241,16 @@ def gen(ctx, emit):
         e = -rng.randint(0, 8)
         emit("btc2sat %d %d" % (rng.randrange(0, 10 ** rng.randint(1, 16)), e))
         emit("mbtc2sat %d %d" % (rng.randrange(0, 10 ** rng.randint(1, 16)), -rng.randint(0, 5)))
+    for _ in range(ctx.n(300, 30000)):
+        n = rng.randrange(0, 21 * 10 ** 14 + 1)
+        for unit, k in ((8, "btc2sat_s"), (5, "mbtc2sat_s")):
+            txt = "%d.%0*d" % (n // 10 ** unit, unit, n % 10 ** unit)
+            if rng.random() < 0.3:
+                txt = txt.rstrip("0").rstrip(".") or "0"
+            emit("%s %s" % (k, hx(txt.encode())))
+    for txt in ("0", "0.00000001", "21000000", "20999999.99999999", "1.5", "0.1", "-1", "+2.50"):
+        emit("btc2sat_s " + hx(txt.encode()))
+        emit("mbtc2sat_s " + hx(txt.encode()))
     # validate_unspents: databases with a single discrepancy at each position
     def rs(n):
         return bytes(rng.randrange(256) for _ in range(n))
